@@ -86,6 +86,14 @@ def run_ortho(spec, res):
 
 
 def run_roundtrip(spec, res):
+    # the same angular grid is decomposed with several spin weights one after
+    # the other in one process (a memo keyed without s would show here)
+    order = [spec['s']] + [q for q in (-2, 0, 2, -1, 1) if q != spec['s']]
+    for k, sw in enumerate(order[:3]):
+        _roundtrip_one(dict(spec, s=sw, seed=spec['seed'] * 7 + k), res)
+
+
+def _roundtrip_one(spec, res):
     from aurel import maths
     s, lmax = spec['s'], spec['lmax']
     rng = np.random.default_rng([int(spec['seed']), 20])
@@ -218,13 +226,30 @@ def run_psi4(spec, res):
                                lmax=max(l0, 4), center=centre,
                                extract_radii=list(radii),
                                interp_method=spec['method'])
+        axes0 = [fd.xarray.copy(), fd.yarray.copy(), fd.zarray.copy(), fd.cartesian_coords.copy()]
         try:
             with common.Quiet():
-                lm = rel['Psi4_lm']
+                lm_first = rel['Psi4_lm']
+                # second evaluation on the same grid object (next iteration /
+                # another AurelCore): must give the same modes
+                rel2 = harness.make_rel(fd, {'Weyl_Psi4r': psi4.real.copy(),
+                                             'Weyl_Psi4i': psi4.imag.copy()},
+                                        lmax=max(l0, 4), center=centre,
+                                        extract_radii=list(radii),
+                                        interp_method=spec['method'])
+                lm = rel2['Psi4_lm']
         except Exception as e:
             common.add_violation(res, f"Psi4_lm raises {type(e).__name__}", {"err": repr(e)[:300]})
             return
-        res['observations'] += 1
+        res['observations'] += 2
+        if not all(np.array_equal(a, b) for a, b in zip(
+                axes0, [fd.xarray, fd.yarray, fd.zarray, fd.cartesian_coords])):
+            common.add_violation(res, "Psi4_lm modifies the grid object", {"centre": centre})
+            return
+        if any(abs(lm_first[R][k] - lm[R][k]) > 1e-12 for R in radii for k in lm[R]):
+            common.add_violation(res, "Psi4_lm differs between two evaluations on the same grid",
+                                 {"centre": centre})
+            return
         if sorted(lm.keys()) != sorted(radii):
             common.add_violation(res, "Psi4_lm radii keys", {"keys": list(lm.keys())})
             return
